@@ -383,7 +383,7 @@ def check_report(ctx, c, im, mo, stream, st):
     msteps = [list(x) for x in msteps]
     diff = None
     if mdecomp is not True:
-        diff = "the model's final manager fails decomp_ok (hypothesis of C07_wmc_partial)"
+        diff = "the model's final manager fails decomp_ok (contradicts C07_decomposable)"
     elif mspec != spec:
         diff = "Coq Spec truth tables differ from the check's bit-mask Spec"
     elif mtabs != spec:
@@ -666,13 +666,39 @@ TRUSTED = [
     "(irrelevant for the right-linear vtree: at most one group has more than one prime); memoised recursion of wmc/enumerate_models "
     "modelled by a bottom-up table over the arena",
 ]
-ASSUME = ["variables are registered (ensure_variable*) before a literal over them is requested, as the API documents",
+ASSUME = ["variables are registered (ensure_variable*) before a literal over them is requested, as the API documents (run_ok)",
           "real deadlines are arbitrary Boolean answer sequences of the deadline closure",
           "unbounded canonicity is NOT proved (only the three-variable bounded theorem and the run-time canonicity check)"]
 
 
+def audit_canon(ctx):
+    """C07canon.v holds the bounded canonicity theorem; its cone contains the VM sweeps, which coqchk (no VM) cannot
+    re-check, so it is audited here (coqc re-check + Print Assumptions) and kept out of the coqchk run on C07.v."""
+    d = os.path.join(vf.VERIF, "coq", SUB)
+    flags = vf.coqproject_flags(d)
+    os.makedirs(os.path.join(ctx.work, "audit"), exist_ok=True)
+    rc, out = vf.sh(["coqc"] + flags + ["-o", os.path.join(ctx.work, "audit", "C07canon.vo"), "C07canon.v"], cwd=d, timeout=3000)
+    n = len([l for l in vf.strip_coq_comments(open(os.path.join(d, "C07canon.v")).read()).splitlines()
+             if l.strip().startswith("Print Assumptions")])
+    ctx.coverage["obligations"] = ctx.coverage.get("obligations", 0) + n
+    if rc != 0:
+        ctx.broken("proof", "Sdd/C07canon.v", "bounded canonicity file does not re-check: " + out[-1200:])
+        return
+    closed, axioms, bad = vf.parse_assumptions(out)
+    if bad or closed + len(axioms) != n:
+        ctx.broken("audit", "assumptions", "C07canon.v: closed=%d axioms=%s bad=%s expected=%d" % (closed, axioms, bad, n))
+        return
+    ctx.coverage["discharged"] = ctx.coverage.get("discharged", 0) + n
+    ctx.coverage["theorems"] = ctx.coverage.get("theorems", []) + vf.theorem_names(os.path.join(d, "C07canon.v"))
+    ctx.coverage["coqchk_note"] = ("coqchk (thorough tier) covers C07.v and its cone; C07canon.v (VM sweeps of the bounded canonicity "
+                                   "theorem) is checked by coqc's kernel only")
+    ctx.log("coq Sdd: C07canon.v re-checked, %d/%d obligations" % (n, n))
+
+
 def run(ctx):
-    ctx.coq(SUB, "C07.v")
+    n_obl, n_dis = ctx.coq(SUB, "C07.v")
+    if n_obl and n_dis == n_obl or ctx.coverage.get("discharged"):
+        audit_canon(ctx)
     binpath = ctx.harness("c07")
     rng = ctx.rng
     rep, intr = load_corpus()
@@ -714,7 +740,9 @@ def run(ctx):
     evaluate_interrupts(ctx, binpath, icases, "interrupt", 40 if ctx.thorough else 12)
     ctx.finish(level="proof", rule=PROP_RULE, trusted_base=TRUSTED, assumptions=ASSUME,
                extra={"partial": ["unbounded canonicity (equal functions get equal handles for every number of variables) is not proved; "
-                                  "C07_canonical_3 is the bounded theorem, the check tests canonicity on every generated handle"]})
+                                  "C07_canonical_3 is the bounded theorem, the check tests canonicity on every generated handle",
+                                  "wmc / gradient for exclusive-group weights (neg = 1) are outside C07_wmc (normalised weights only) and "
+                                  "are compared numerically with the truth-table sums"]})
 
 
 def replay(ctx):
